@@ -7,7 +7,8 @@
 (* type  = [c |-> "leaf", l |-> L] | [c |-> "opt", x] | [c |-> "res", ok, err]            *)
 (*       | [c |-> "vec", x] | [c |-> "poll", x] | [c |-> "tup", xs : Seq(type)]           *)
 (*   leaves: "O" owned Clone value, "T" owned non-Clone value, "B" &T borrowed from self, *)
-(*           "Bs" &str borrowed from self, "S" &'static str                               *)
+(*           "Bs" &str borrowed from self, "Bl" &[T] (a slice) borrowed from self,        *)
+(*           "S" &'static str                                                             *)
 (* value = the same tree with a variant chosen at every container.                        *)
 (*                                                                                        *)
 (* Two descriptions of what a caller observes:                                            *)
@@ -28,7 +29,7 @@ Tup(xs) == [c |-> "tup", xs |-> xs]
 
 Owned(l) == l \in {"O", "T"}
 RECURSIVE HasBorrow(_), HasTok(_), HasStatic(_)
-HasBorrow(ty) == CASE ty.c = "leaf" -> ty.l \in {"B", "Bs"}
+HasBorrow(ty) == CASE ty.c = "leaf" -> ty.l \in {"B", "Bs", "Bl"}
                    [] ty.c = "res"  -> HasBorrow(ty.ok) \/ HasBorrow(ty.err)
                    [] ty.c = "tup"  -> \E i \in 1..Len(ty.xs) : HasBorrow(ty.xs[i])
                    [] OTHER         -> HasBorrow(ty.x)
@@ -44,7 +45,7 @@ HasStatic(ty) == CASE ty.c = "leaf" -> ty.l = "S"
 \* output kind chosen from the return type's syntax (determine_output_structure):
 \*   a top-level reference is Lending / StaticRef; a type with no borrow from self is Owning as a
 \*   whole; otherwise the structure is taken apart (Shallow / Deep)
-KindOf(ty) == IF ty.c = "leaf" /\ ty.l \in {"B", "Bs"} THEN "lending"
+KindOf(ty) == IF ty.c = "leaf" /\ ty.l \in {"B", "Bs", "Bl"} THEN "lending"
               ELSE IF ty.c = "leaf" /\ ty.l = "S" THEN "staticref"
               ELSE IF ~HasBorrow(ty) THEN "owning"
               ELSE "mixed"
